@@ -54,9 +54,15 @@ class Sim:
 
         co = dict(client_options or {})
         so = dict(server_options or {})
-        cconf = QuicConfiguration(is_client=True, quic_logger=QuicLogger() if quic_logger else None, **co)
+        def mklog():
+            # quic_logger: falsy = logging off, True = in-memory QuicLogger, callable = factory
+            if not quic_logger:
+                return None
+            return quic_logger() if callable(quic_logger) else QuicLogger()
+
+        cconf = QuicConfiguration(is_client=True, quic_logger=mklog(), **co)
         cconf.load_verify_locations(cafile=os.path.join(TESTS, "pycacert.pem"))
-        sconf = QuicConfiguration(is_client=False, quic_logger=QuicLogger() if quic_logger else None, **so)
+        sconf = QuicConfiguration(is_client=False, quic_logger=mklog(), **so)
         sconf.load_cert_chain(os.path.join(TESTS, "ssl_cert.pem"), os.path.join(TESTS, "ssl_key.pem"))
         client = QuicConnection(configuration=cconf, **(client_kwargs or {}))
         server = QuicConnection(
